@@ -139,3 +139,65 @@ func CheckOversizedSend(o Obs) {
 		}
 	}
 }
+
+// One packet object that is sized, sent, changed and sent again (a sender
+// loop that reuses its packet): every frame must hold the value the packet
+// had when it was sent, whatever was computed for an earlier value.
+
+const SigResend = "resent-packet-encoded-stale"
+
+type bufWriter struct{ b []byte }
+
+func (w *bufWriter) Write(p []byte) (int, error) { w.b = append(w.b, p...); return len(p), nil }
+
+func CheckResend(o Obs, r *core.Rand) {
+	w := &bufWriter{}
+	s := util.NewProtoStream(context.Background(), io.LimitReader(nil, 0), w)
+	p := &types.Packet{}
+	var want []*types.Packet
+	for i, n := 0, 3+r.Intn(6); i < n; i++ {
+		switch r.Intn(5) {
+		case 0:
+			p.Data = r.Bytes(core.Pick(r, []int{0, 1, 5, 100, 40000}))
+		case 1:
+			p.ID = uint32(r.Intn(1 << 20))
+		case 2:
+			p.Stat = &types.Stat{Path: string(r.Bytes(r.Intn(20))), Mode: uint32(r.Intn(1 << 12)), Size: int64(r.Intn(1 << 30))}
+		case 3:
+			p.Stat = nil
+			p.Data = nil
+		default:
+			p.Type = types.Packet_PacketType(r.Intn(5))
+		}
+		if r.P(1, 2) {
+			_ = p.Size() // a caller that looks at the size first
+		}
+		want = append(want, p.CloneVT())
+		out := protect(func() error { return s.SendMsg(p) })
+		if out.panicked != nil {
+			o.Violate(SigResend, "SendMsg of a packet that was changed after an earlier send panicked: %v", out.panicked)
+			return
+		}
+		if out.err != nil {
+			o.Violate(SigResend, "SendMsg of a packet that was changed after an earlier send failed: %v", out.err)
+			return
+		}
+	}
+	o.Count("packets_resent_after_a_change", int64(len(want)))
+	bodies, tail, _, _ := ParseFrames(w.b)
+	if len(bodies) != len(want) || len(tail) != 0 {
+		o.Violate(SigResend, "%d sends of one changing packet; a reference reader finds %d complete frames and %d trailing bytes", len(want), len(bodies), len(tail))
+		return
+	}
+	for i, b := range bodies {
+		var v types.Packet
+		if err := v.UnmarshalVT(b); err != nil {
+			o.Violate(SigResend, "frame %d of %d (one packet object, changed between sends) does not decode: %v", i, len(want), err)
+			return
+		}
+		if d := PacketDiff(want[i], &v); d != "" {
+			o.Violate(SigResend, "frame %d of %d (one packet object, changed between sends) holds another value than the packet had when it was sent: %s", i, len(want), d)
+			return
+		}
+	}
+}
